@@ -26,7 +26,7 @@ def is_modelled(c):
         return c.fields.get("scheme", [""])[0] == "marlin" and "beta" in c.fields
     if c.kind == "pc":
         sch = c.fields.get("scheme", [""])[0]
-        return (sch in MODELLED_PC_SCHEMES and "beta" in c.fields) or (sch in ("hyrax", "ipa") and "refuse_kind" not in c.meta)
+        return (sch in MODELLED_PC_SCHEMES and "beta" in c.fields) or (sch in ("hyrax", "ipa", "pst13") and "refuse_kind" not in c.meta)
     return False
 
 
@@ -165,6 +165,9 @@ class Engine:
                     base = lib.get(c.id, {}).get("in", {}).get(ty[2:])
                     if not base:
                         diffs.append({"case": c.id, "name": name, "lib": "<no basis %s>" % ty[2:], "model": " ".join(mt)[:80]})
+                    elif mt == ["-"] or lt == ["-"]:
+                        if mt != lt:
+                            diffs.append({"case": c.id, "name": name, "lib": " ".join(lt)[:80], "model": " ".join(mt)[:80]})
                     else:
                         reqs.append(("%sL@%s" % (base[0], ",".join(base[1:])), mt))
                         where.append((c.id, name, lt))
